@@ -376,7 +376,7 @@ pub fn run_project(input: &ProjectInput) -> PipelineResult {
             print_types_for_operation_document(options, &schema, doc, &mut writer);
             writer.into_buffers()
         }) {
-            Err(p) => res.panics.push(("print_types_for_operation_document".into(), p)),
+            Err(p) => res.panics.push((format!("print_types_for_operation_document#{i}"), p)),
             Ok(b) => {
                 oo.dts = b.buffer;
                 oo.dts_map = b.source_map;
@@ -388,7 +388,7 @@ pub fn run_project(input: &ProjectInput) -> PipelineResult {
             print_js_for_operation_document(OperationJSPrinterOptions::from_config(&config), doc, &mut writer);
             writer.into_buffers().buffer
         }) {
-            Err(p) => res.panics.push(("print_js_for_operation_document".into(), p)),
+            Err(p) => res.panics.push((format!("print_js_for_operation_document#{i}"), p)),
             Ok(b) => oo.js = b,
         }
         match guarded(|| {
@@ -397,7 +397,7 @@ pub fn run_project(input: &ProjectInput) -> PipelineResult {
             doc.print_graphql(&mut w);
             buffer
         }) {
-            Err(p) => res.panics.push(("print_graphql(operation)".into(), p)),
+            Err(p) => res.panics.push((format!("print_graphql(operation)#{i}"), p)),
             Ok(b) => oo.printed = b,
         }
         out.ops.push(oo);
